@@ -70,9 +70,9 @@ def keepsAllOnL (S : SK → Bool) (c : Ctx) : List Green → Bool
   | g :: gs => keepsAllOn S c g && keepsAllOnL S c gs
 end
 
-/-- the node kinds for which `C14_parsed_trees_keep_all_partial` is proved: all but these five -/
+/-- the node kinds for which `C14_parsed_trees_keep_all_partial` is proved: all but these two -/
 def covered : SK → Bool
-  | .LambdaExpr | .RecordExpr | .MacroExpansion | .TupleType | .RecordType => false
+  | .RecordExpr | .MacroExpansion => false
   | _ => true
 
 mutual
